@@ -30,7 +30,7 @@ enum { SYNC, POOL, URING, POSIX };
 static int mode;
 static uv_loop_t loop_s;
 static uv_loop_t* loop;
-static int cb_count, opno;
+static int cb_count, opno, alive_reported;
 static long n_uring, n_pool, n_btime;
 static int slots[16];
 static char root[PATH_MAX];
@@ -57,7 +57,12 @@ static long fin(int rc, uv_fs_t* req) {
     return rc;
   }
   cb_count = 0;
-  uv_run(loop, UV_RUN_DEFAULT);
+  while (cb_count == 0 && uv_run(loop, UV_RUN_ONCE)) ;
+  /* the only request of this loop has called back: nothing may keep the loop alive (request accounting) */
+  if (uv_loop_alive(loop)) {
+    uv_run(loop, UV_RUN_NOWAIT);
+    if (uv_loop_alive(loop) && !alive_reported) { printf("!loop-alive op=%d active_reqs=%u\n", opno, loop->active_reqs.count); alive_reported = 1; }
+  }
   uv_run(loop, UV_RUN_NOWAIT);
   if (cb_count != 1) printf("!cb-count op=%d n=%d\n", opno, cb_count);
   return (long) req->result;
@@ -109,19 +114,19 @@ static char typech(mode_t m) {
 static void tm_str(char* b, long sec) {
   if (sec < 1100000000L) sprintf(b, "%ld", sec); else strcpy(b, "now");
 }
-static void print_stat_fields(mode_t m, long nlink, long size, long at, long mt) {
+static void print_stat_fields(mode_t m, long nlink, long size, long at, long mt, long uid, long gid) {
   char a[32], t[32];
   tm_str(a, at); tm_str(t, mt);
   printf(" type=%c mode=%o nlink=%ld", typech(m), (unsigned) (m & 07777), S_ISDIR(m) ? 0L : nlink);
   if (!S_ISDIR(m)) printf(" size=%ld", size);
-  printf(" mt=%s", t);
+  printf(" mt=%s own=%ld:%ld", t, uid, gid);
   (void) a;
 }
 static void print_uvstat(const uv_stat_t* s) {
-  print_stat_fields((mode_t) s->st_mode, (long) s->st_nlink, (long) s->st_size, (long) s->st_atim.tv_sec, (long) s->st_mtim.tv_sec);
+  print_stat_fields((mode_t) s->st_mode, (long) s->st_nlink, (long) s->st_size, (long) s->st_atim.tv_sec, (long) s->st_mtim.tv_sec, (long) s->st_uid, (long) s->st_gid);
 }
 static void print_pstat(const struct stat* s) {
-  print_stat_fields(s->st_mode, (long) s->st_nlink, (long) s->st_size, (long) s->st_atim.tv_sec, (long) s->st_mtim.tv_sec);
+  print_stat_fields(s->st_mode, (long) s->st_nlink, (long) s->st_size, (long) s->st_atim.tv_sec, (long) s->st_mtim.tv_sec, (long) s->st_uid, (long) s->st_gid);
 }
 
 /* every field of uv_stat_t against statx(2) issued right now on the same object: within one run the kernel
@@ -428,6 +433,19 @@ int main(int argc, char** argv) {
       printf("%s %s", w[0], rs(r));
       if (w[0][0] == 'm' && r == 0) { struct stat st; if (lstat(A(1), &st) == 0) printf(" type=%c mode=%o", typech(st.st_mode), (unsigned) (st.st_mode & 07777)); }
       putchar('\n');
+    } else if (IS("chown", 4) || IS("lchown", 4) || IS("fchown", 4)) {
+      long u = atol(A(2)), g = atol(A(3));
+      if (geteuid() != 0 && (u != -1 || g != -1)) { printf("%s skipped-not-root\n", w[0]); continue; }
+      if (mode == POSIX)   /* the exact POSIX counterpart of each */
+        r = perr(w[0][0] == 'c' ? chown(A(1), (uid_t) u, (gid_t) g) : w[0][0] == 'l' ? lchown(A(1), (uid_t) u, (gid_t) g)
+                                                                                     : fchown(SLOT(A(1)), (uid_t) u, (gid_t) g));
+      else {
+        r = fin(w[0][0] == 'c' ? uv_fs_chown(loop, &req, A(1), (uv_uid_t) u, (uv_gid_t) g, CB)
+              : w[0][0] == 'l' ? uv_fs_lchown(loop, &req, A(1), (uv_uid_t) u, (uv_gid_t) g, CB)
+                               : uv_fs_fchown(loop, &req, SLOT(A(1)), (uv_uid_t) u, (uv_gid_t) g, CB), &req);
+        uv_fs_req_cleanup(&req);
+      }
+      printf("%s %s\n", w[0], rs(r));
     } else if (IS("rmdir", 2) || IS("unlink", 2)) {
       if (mode == POSIX) r = perr(w[0][0] == 'r' ? rmdir(A(1)) : unlink(A(1)));
       else { r = fin(w[0][0] == 'r' ? uv_fs_rmdir(loop, &req, A(1), CB) : uv_fs_unlink(loop, &req, A(1), CB), &req); uv_fs_req_cleanup(&req); }
@@ -626,8 +644,8 @@ int main(int argc, char** argv) {
   }
   tree(".");
   fprintf(stderr, "stats uring_ops=%ld pool_ops=%ld btime_stats=%ld\n", n_uring, n_pool, n_btime);
-  uv_run(loop, UV_RUN_DEFAULT);
-  if (uv_loop_close(loop)) printf("!loop-close-busy\n");
+  uv_run(loop, alive_reported ? UV_RUN_NOWAIT : UV_RUN_DEFAULT);
+  if (uv_loop_close(loop) && !alive_reported) printf("!loop-close-busy\n");
   fflush(stdout);
   return 0;
 }
